@@ -585,7 +585,7 @@ V('C12', 'missing-version-not-resolved', WALLET, "        if nVersion is None:\n
 V('C12', 'nested-program-slice-early', WALLET, "return cls.from_bytes(scriptPubKey[3:23], bitcoin.params.BASE58_PREFIXES['PUBKEY_ADDR'])\n        elif (len(scriptPubKey) == 25",
   "return cls.from_bytes(scriptPubKey[2:23], bitcoin.params.BASE58_PREFIXES['PUBKEY_ADDR'])\n        elif (len(scriptPubKey) == 25", 'C12.T1', scope='P2PKHBitcoinAddress.from_scriptPubKey')
 V('C12', 'benign-slice-bound-beyond-the-end', WALLET, "return cls.from_bytes(scriptPubKey[2:22], bitcoin.params.BASE58_PREFIXES['PUBKEY_ADDR'])", "return cls.from_bytes(scriptPubKey[2:23], bitcoin.params.BASE58_PREFIXES['PUBKEY_ADDR'])",
-  'UNDECIDED:C12.Z3', scope='P2PKHBitcoinAddress.from_scriptPubKey')
+  'SILENT', scope='P2PKHBitcoinAddress.from_scriptPubKey')
 V('C01', 'witness-dropped-by-default', CORE, "    def stream_serialize(self, f, include_witness=True):\n        f.write(struct.pack(b\"<i\", self.nVersion))\n        if include_witness",
   "    def stream_serialize(self, f, include_witness=False):\n        f.write(struct.pack(b\"<i\", self.nVersion))\n        if include_witness", 'C01.F1')
 V('C01', 'default-previous-hash-31-bytes', CORE, "def __init__(self, nVersion=2, hashPrevBlock=b'\\x00'*32, hashMerkleRoot=b'\\x00'*32, nTime=0, nBits=0, nNonce=0):",
